@@ -2,6 +2,9 @@
 //! width is not tied to the machine word. Plans whose `set_bits` exceed 64 are executed here: the
 //! set steps of the plan (all other steps are ignored) run on sets of 65..96-bit integers whose
 //! elements are a `u128` newtype, lock-step against a finite / co-finite reference set.
+//! Plans with `set_bits2` (`mixed-widths`) are executed here as well: sets of two different
+//! widths share the environment (a set created at an odd step has the second width); sets of
+//! different widths are never combined.
 
 use std::collections::{BTreeMap, BTreeSet};
 use std::rc::Rc;
@@ -116,44 +119,81 @@ fn member(d: &BDD<usize>, e: Wide, bits: usize) -> Result<bool, String> {
     }
 }
 
+struct Slot {
+    set: BDDSet,
+    model: Model,
+    bits: usize,
+}
+
+/// The plan's element value as an element of a `bits`-bit set.
+fn elem(e: usize, bits: usize) -> u128 {
+    if bits > 64 {
+        widen(e, bits)
+    } else {
+        mask(e as u128, bits)
+    }
+}
+
+/// Bit positions whose flip gives the neighbours of an element that are probed as well.
+fn flips(bits: usize) -> Vec<usize> {
+    let mut v = vec![0usize, bits - 1];
+    if bits > 64 {
+        v.push(bits - 65);
+        v.push(64);
+    }
+    v.sort_unstable();
+    v.dedup();
+    v
+}
+
+/// Probe universe of one width: everything for small widths, else every element the plan
+/// mentions, boundary elements, and their neighbours.
+fn universe_of(plan: &EnvPlan, bits: usize) -> Vec<u128> {
+    if bits <= 8 {
+        return (0..(1u128 << bits)).collect();
+    }
+    let mut u: BTreeSet<u128> = BTreeSet::new();
+    let ones = mask(u128::MAX, bits);
+    for b in [0u128, 1, 2, 3, ones, ones - 1, ones >> 1, (ones >> 1) + 1, 1u128 << 63, 1u128 << 64, (1u128 << 64) - 1] {
+        u.insert(mask(b, bits));
+    }
+    for st in &plan.steps {
+        if let Op::SetFromElement(e) | Op::SetInsert(_, e) | Op::SetContains(_, e) = &st.op {
+            let w = elem(*e, bits);
+            u.insert(w);
+            for k in flips(bits) {
+                u.insert(mask(w ^ (1u128 << k), bits));
+            }
+        }
+    }
+    u.into_iter().collect()
+}
+
 pub fn execute(plan: &EnvPlan) -> RunOutcome {
     let mut out = RunOutcome::default();
     let mut stats = Stats::new();
     out.plan_digest = digest_bytes(&serde_json::to_vec(plan).expect("plan serialises"));
-    let bits = plan.set_bits.min(120);
-    bump(&mut stats, "fault.custom-element-type");
-    bump(&mut stats, &format!("probe.set_bits.{bits}"));
-
-    // probe universe: every element the plan mentions, boundary elements, and their neighbours
-    let mut universe: BTreeSet<u128> = BTreeSet::new();
-    let ones = mask(u128::MAX, bits);
-    for b in [0u128, 1, 2, 3, ones, ones - 1, ones >> 1, (ones >> 1) + 1, 1u128 << 63, 1u128 << 64, (1u128 << 64) - 1] {
-        universe.insert(mask(b, bits));
+    let w1 = plan.set_bits.clamp(1, 120);
+    let w2 = plan.set_bits2.min(120);
+    if w1 > 64 || w2 > 64 {
+        bump(&mut stats, "fault.custom-element-type");
     }
-    let mentioned: Vec<u128> = plan
-        .steps
-        .iter()
-        .filter_map(|s| match &s.op {
-            Op::SetFromElement(e) | Op::SetInsert(_, e) | Op::SetContains(_, e) => Some(widen(*e, bits)),
-            _ => None,
-        })
-        .collect();
-    for e in &mentioned {
-        universe.insert(*e);
-        for k in [0usize, bits - 65, 64, bits - 1] {
-            universe.insert(mask(*e ^ (1u128 << k), bits));
-        }
+    if w2 != 0 {
+        bump(&mut stats, "fault.mixed-widths");
     }
-    let universe: Vec<u128> = universe.into_iter().collect();
+    bump(&mut stats, &format!("probe.set_bits.{w1}"));
+    let width_for = |step_no: usize| if w2 != 0 && step_no % 2 == 1 { w2 } else { w1 };
+    let universes: BTreeMap<usize, Vec<u128>> = [w1, w2].iter().filter(|w| **w != 0).map(|w| (*w, universe_of(plan, *w))).collect();
+    let mentions = plan.steps.iter().any(|s| matches!(s.op, Op::SetFromElement(_) | Op::SetInsert(..) | Op::SetContains(..)));
 
     let env = Rc::new(BDDEnv::<usize>::new());
-    let mut sets: BTreeMap<usize, (BDDSet, Model)> = BTreeMap::new();
+    let mut sets: BTreeMap<usize, Slot> = BTreeMap::new();
     let mut violations: Vec<Violation> = Vec::new();
     let mut trace: Vec<u64> = Vec::new();
 
     'steps: for (step_no, step) in plan.steps.iter().enumerate() {
         let opname = step.op.name();
-        let set_id = |sel: usize, sets: &BTreeMap<usize, (BDDSet, Model)>| -> Option<usize> {
+        let set_id = |sel: usize, sets: &BTreeMap<usize, Slot>| -> Option<usize> {
             let target = sel % (step_no + 1);
             sets.range(..=target).next_back().map(|(k, _)| *k).or_else(|| sets.keys().next().copied())
         };
@@ -174,30 +214,32 @@ pub fn execute(plan: &EnvPlan) -> RunOutcome {
         };
         match &step.op {
             Op::SetNew if sets.len() < 4 => {
+                let bits = width_for(step_no);
                 let e2 = Rc::clone(&env);
                 match catch(|| BDDSet::with_env(bits, &e2)) {
-                    Caught::Ok(s) => {
-                        sets.insert(step_no, (s, Model::default()));
+                    Caught::Ok(set) => {
+                        sets.insert(step_no, Slot { set, model: Model::default(), bits });
                     }
                     c => note(c.map_unit(), &mut panicked, &mut budget),
                 }
             }
             Op::SetFromElement(e) if sets.len() < 4 => {
-                let w = widen(*e, bits);
+                let bits = width_for(step_no);
+                let w = elem(*e, bits);
                 let e2 = Rc::clone(&env);
                 match catch(|| BDDSet::from_element(Wide(w), bits, &e2)) {
-                    Caught::Ok(s) => {
-                        sets.insert(step_no, (s, Model::of([w])));
+                    Caught::Ok(set) => {
+                        sets.insert(step_no, Slot { set, model: Model::of([w]), bits });
                     }
                     c => note(c.map_unit(), &mut panicked, &mut budget),
                 }
             }
             Op::SetClone(s) if sets.len() < 4 => {
                 if let Some(k) = set_id(*s, &sets) {
-                    let (src, m) = (&sets[&k].0, sets[&k].1.clone());
+                    let (src, m, bits) = (&sets[&k].set, sets[&k].model.clone(), sets[&k].bits);
                     match catch(|| src.clone()) {
-                        Caught::Ok(c) => {
-                            sets.insert(step_no, (c, m));
+                        Caught::Ok(set) => {
+                            sets.insert(step_no, Slot { set, model: m, bits });
                         }
                         c => note(c.map_unit(), &mut panicked, &mut budget),
                     }
@@ -210,64 +252,72 @@ pub fn execute(plan: &EnvPlan) -> RunOutcome {
             }
             Op::SetInsert(s, e) => {
                 if let Some(k) = set_id(*s, &sets) {
-                    let w = widen(*e, bits);
-                    let set = &sets[&k].0;
+                    let w = elem(*e, sets[&k].bits);
+                    let set = &sets[&k].set;
                     let c = catch(|| {
                         set.insert(Wide(w));
                     });
                     note(c, &mut panicked, &mut budget);
-                    sets.get_mut(&k).expect("live").1.insert(w);
+                    sets.get_mut(&k).expect("live").model.insert(w);
                 }
             }
             Op::SetEmpty(s) => {
                 if let Some(k) = set_id(*s, &sets) {
-                    let set = &sets[&k].0;
+                    let set = &sets[&k].set;
                     let c = catch(|| {
                         set.empty();
                     });
                     note(c, &mut panicked, &mut budget);
-                    sets.get_mut(&k).expect("live").1 = Model::default();
+                    sets.get_mut(&k).expect("live").model = Model::default();
                 }
             }
             Op::SetUniverse(s) => {
                 if let Some(k) = set_id(*s, &sets) {
-                    let set = &sets[&k].0;
+                    let set = &sets[&k].set;
                     let c = catch(|| {
                         set.universe();
                     });
                     note(c, &mut panicked, &mut budget);
-                    sets.get_mut(&k).expect("live").1 = Model::default().negated();
+                    sets.get_mut(&k).expect("live").model = Model::default().negated();
                 }
             }
             Op::SetBin(kind, s, o) => {
                 if let (Some(k), Some(j)) = (set_id(*s, &sets), set_id(*o, &sets)) {
-                    let (a, b) = (&sets[&k].0, &sets[&j].0);
-                    let c = catch(|| {
-                        match kind {
-                            SetBinKind::Union => a.union(b),
-                            SetBinKind::Intersect => a.intersect(b),
-                            SetBinKind::Complement => a.complement(b),
+                    if sets[&k].bits != sets[&j].bits {
+                        // sets of different widths are never combined
+                        bump(&mut stats, "probe.mixed-width-operands-skipped");
+                    } else {
+                        let (a, b) = (&sets[&k].set, &sets[&j].set);
+                        let c = catch(|| {
+                            match kind {
+                                SetBinKind::Union => a.union(b),
+                                SetBinKind::Intersect => a.intersect(b),
+                                SetBinKind::Complement => a.complement(b),
+                            };
+                        });
+                        note(c, &mut panicked, &mut budget);
+                        let other = sets[&j].model.clone();
+                        let m = &mut sets.get_mut(&k).expect("live").model;
+                        *m = match kind {
+                            SetBinKind::Union => m.union(&other),
+                            SetBinKind::Intersect => m.intersect(&other),
+                            SetBinKind::Complement => m.difference(&other),
                         };
-                    });
-                    note(c, &mut panicked, &mut budget);
-                    let other = sets[&j].1.clone();
-                    let m = &mut sets.get_mut(&k).expect("live").1;
-                    *m = match kind {
-                        SetBinKind::Union => m.union(&other),
-                        SetBinKind::Intersect => m.intersect(&other),
-                        SetBinKind::Complement => m.difference(&other),
-                    };
+                    }
                 }
             }
             Op::SetContains(s, e) => {
                 if let Some(k) = set_id(*s, &sets) {
                     // the query itself, and the same query on the neighbours of the element
-                    let w = widen(*e, bits);
-                    for q in [w, mask(w ^ 1, bits), mask(w ^ (1u128 << (bits - 65)), bits), mask(w ^ (1u128 << 64), bits)] {
-                        let set = &sets[&k].0;
+                    let bits = sets[&k].bits;
+                    let w = elem(*e, bits);
+                    let mut queries = vec![w];
+                    queries.extend(flips(bits).into_iter().map(|f| mask(w ^ (1u128 << f), bits)));
+                    for q in queries {
+                        let set = &sets[&k].set;
                         match catch(|| set.contains(Wide(q))) {
                             Caught::Ok(ans) => {
-                                let want = sets[&k].1.contains(q);
+                                let want = sets[&k].model.contains(q);
                                 trace.push(ans as u64);
                                 if ans != want {
                                     violations.push(viol("S2", &opname, step_no, format!("contains({q:#x}) on a {bits}-bit set answered {ans}, the reference set says {want}")));
@@ -285,30 +335,31 @@ pub fn execute(plan: &EnvPlan) -> RunOutcome {
         out.ticks += rsbdd::verif_hooks::ticks();
         out.steps += 1;
         if budget {
-            out.unjudged = Some("tick budget exhausted in a wide-element set step".into());
+            out.unjudged = Some("tick budget exhausted in a set step (custom element type / mixed widths)".into());
             break;
         }
         if let Some((m, l)) = panicked {
-            violations.push(viol("S5", &format!("{opname}@{l}"), step_no, format!("{opname} on a {bits}-bit set of custom elements panicked: {m} @ {l}")));
+            violations.push(viol("S5", &format!("{opname}@{l}"), step_no, format!("{opname} panicked (widths {w1} / {w2}, u128 elements): {m} @ {l}")));
             break;
         }
-        // S1: every set's diagram against its reference set on the probe universe
-        for (k, (set, model)) in sets.iter() {
+        // S1: every set's diagram against its reference set on the probe universe of its width
+        for (k, slot) in sets.iter() {
             if !all_sets && touched != Some(*k) {
                 continue;
             }
-            let d = match set.bdd.try_borrow() {
+            let d = match slot.set.bdd.try_borrow() {
                 Ok(d) => Rc::clone(&d),
                 Err(_) => {
                     violations.push(viol("S5", &opname, step_no, format!("set #{k} is left mutably borrowed")));
                     break 'steps;
                 }
             };
-            for e in &universe {
+            let bits = slot.bits;
+            for e in &universes[&bits] {
                 match member(&d, Wide(*e), bits) {
-                    Ok(got) if got == model.contains(*e) => {}
+                    Ok(got) if got == slot.model.contains(*e) => {}
                     Ok(got) => {
-                        violations.push(viol("S1", &opname, step_no, format!("set #{k} ({bits} bits, custom element type) after {opname}: element {e:#x} is {}a member, the reference set says {}", if got { "" } else { "not " }, model.contains(*e))));
+                        violations.push(viol("S1", &opname, step_no, format!("set #{k} ({bits} bits{}) after {opname}: element {e:#x} is {}a member, the reference set says {}", if w2 != 0 { format!(", sharing the environment with sets of {} bits", if bits == w1 { w2 } else { w1 }) } else { String::new() }, if got { "" } else { "not " }, slot.model.contains(*e))));
                         break 'steps;
                     }
                     Err(e) => {
@@ -317,11 +368,11 @@ pub fn execute(plan: &EnvPlan) -> RunOutcome {
                     }
                 }
             }
-            trace.push(mix(&[*k as u64, model.finite.len() as u64, model.co as u64]));
+            trace.push(mix(&[*k as u64, slot.model.finite.len() as u64, slot.model.co as u64]));
         }
     }
     rsbdd::verif_hooks::set_budget(None);
-    out.nontrivial = !mentioned.is_empty();
+    out.nontrivial = mentions;
     out.trace_digest = mix(&trace);
     out.state_digests.push(mix(&trace));
     out.violations = violations;
